@@ -910,6 +910,28 @@ fn c04(cx: &mut Ctx) {
             }
         }
     }
+    // (a') operands spelled with text that is not a 16-bit literal at all (I1): must be rejected,
+    //      never wrapped into the field
+    let templates = [
+        "add r1 r2 {}", "and r1 r2 {}", "ldr r1 r2 {}", "str r1 r2 {}", "br {}", "brnz {}", "ld r1 {}", "ldi r1 {}",
+        "lea r1 {}", "st r1 {}", "sti r1 {}", "jsr {}", "trap {}", ".fill {}", ".blkw {}", ".orig {}\nhalt",
+    ];
+    let bad = [
+        "#65536", "#-32769", "#+65536", "#99999", "x10000", "0x10000", "X1FFFF", "x-8001", "x-FFFF", "x-FFF1", "0x-FFE1",
+        "x-FFFE", "x-10000", "x-D000", "#-65535", "#-65536", "x-FFDB",
+    ];
+    for t in templates {
+        for b in bad {
+            if let Some(_rng) = cx.mine() {
+                let text = format!("{}\nhalt\n", t.replace("{}", b));
+                let (obs, kind) = observe(&mut cx.cap, false, &text, None);
+                cx.sink.put(&format!("P01 0 {} = x", hex(text.as_bytes())), &obs);
+                *cx.gens.entry("non-literal-operand".to_string()).or_insert(0) += 1;
+                *cx.outcomes.entry(kind).or_insert(0) += 1;
+                cx.texts += 1;
+            }
+        }
+    }
     // .orig at every 4-bit boundary of its range; zero, once, twice (any position)
     for w in [0u16, 1, 0xF, 0x10, 0xFF, 0x100, 0xFFF, 0x1000, 0x2FFF, 0x3000, 0x7FFF, 0x8000, 0x8001, 0xFDFF, 0xFE00, 0xFFFE, 0xFFFF] {
         for sp in spells {
